@@ -292,7 +292,8 @@ def make_rows(kind, cols, rows):
     if kind == "list":
         return [list(r) for r in rows]
     if kind == "dict":
-        return [dict(zip(names, r)) for r in rows]
+        # every other dict lists its keys in the opposite order: dict rows are read by key, not by position
+        return [dict(zip(names, r)) if i % 2 == 0 else dict(reversed(list(zip(names, r)))) for i, r in enumerate(rows)]
     out = []
     for r in rows:
         x = Row(*r)
@@ -738,6 +739,44 @@ def run(ctx: core.Ctx):
             stmt_meta.append({"kind": "select", "form": "lit", "sql": sql, "base": bsql, "strings": b})
     ctx.log(f"(b) lit(): {n_lit} select statements; {len(cell_items)} distinct columns in total")
 
+    # ---- result frames whose column names are NOT unique (same alias twice, a literal under the name of a selected
+    # column, a column selected twice, both key columns of a join): every value must come back, at its position
+    n_dup = 0
+    dup_df = session.createDataFrame([(7, "q'")], ["a", "b"])
+    ok_vals = [v for v in typed if not contains(v, lambda x: isinstance(x, float) and math.isinf(x))] \
+        + [s_ for s_ in clean[::9]]
+
+    def dup_check(shape, build, names, want):
+        nonlocal n_dup
+        n_dup += 1
+        try:
+            rows_ = build().collect()
+            got = rows_[0]
+            ok = len(got) == len(want) and list(got.__fields__) == list(names) \
+                and all(same_value(a, py_expected(b_)) for a, b_ in zip(got, want))
+            shown = repr(tuple(got))[:600] + " fields=" + repr(list(got.__fields__))
+        except Exception as ex:  # noqa
+            ok, shown = False, f"raised {type(ex).__name__}: {str(ex)[:160]}"
+        if not ok:
+            ctx.deviation(f"C09/duplicate-output-names:{shape}",
+                          "a result whose column names are not unique does not return every value at its position",
+                          {"dup_select": shape, "names": list(names), "values": repr(list(want))[:1500], "collect_returned": shown,
+                           "expected": repr(tuple(py_expected(x) for x in want))[:800]})
+
+    for i in range(0, len(ok_vals) - 2, 3 if ctx.tier != "quick" else 6):
+        v3 = ok_vals[i:i + 3]
+        dup_check("same-alias-v-w-v", lambda v3=v3: dup_df.select(*[F.lit(v).alias(n) for v, n in zip(v3, "vwv")]), "vwv", v3)
+        dup_check("same-alias-x-x", lambda v3=v3: dup_df.select(F.lit(v3[0]).alias("x"), F.lit(v3[1]).alias("x")), "xx", v3[:2])
+        dup_check("literal-named-like-selected-column",
+                  lambda v3=v3: dup_df.select("a", F.lit(v3[2]).alias("a"), "b"), ["a", "a", "b"], [7, v3[2], "q'"])
+    dup_check("column-selected-twice", lambda: dup_df.select("a", "a", "b", "a"), ["a", "a", "b", "a"], [7, 7, "q'", 7])
+    left = session.createDataFrame([(1, "l'")], ["id", "x"])
+    right = session.createDataFrame([(1, 2.5)], ["id", "y"])
+    dup_check("join-keeps-both-keys", lambda: left.join(right, left["id"] == right["id"]), ["id", "x", "id", "y"], [1, "l'", 1, 2.5])
+    n_eval += n_dup
+    hist["duplicate_name_results"] = n_dup
+    ctx.log(f"(b) {n_dup} result frames with duplicate column names")
+
     # ---- evaluate the columns in Coq
     res = eval_cases(ctx, "c09_cell", H_CELL, cell_items)
     n_eval += len(cell_items)
@@ -1008,6 +1047,26 @@ def replay(ctx: core.Ctx, rp: dict) -> int:
             print("raised:", type(ex).__name__, str(ex)[:300])
         print("statement:", px.log[:1])
         print("PySpark 3.5.9 recorded:", r.get("pyspark"))
+        return 0
+    if "dup_select" in r:
+        vals = eval(r["values"], ns)
+        print("select of", vals, "under the names", r["names"], "(shape:", r["dup_select"] + ")")
+        df0 = session.createDataFrame([(7, "q'")], ["a", "b"])
+        try:
+            if r["dup_select"].startswith("same-alias"):
+                got = df0.select(*[F.lit(v).alias(n) for v, n in zip(vals, r["names"])]).collect()
+            elif r["dup_select"] == "literal-named-like-selected-column":
+                got = df0.select("a", F.lit(vals[1]).alias("a"), "b").collect()
+            elif r["dup_select"] == "column-selected-twice":
+                got = df0.select("a", "a", "b", "a").collect()
+            else:
+                le = session.createDataFrame([(1, "l'")], ["id", "x"])
+                ri = session.createDataFrame([(1, 2.5)], ["id", "y"])
+                got = le.join(ri, le["id"] == ri["id"]).collect()
+            print("collect():", got, "tuple:", tuple(got[0]), "fields:", got[0].__fields__)
+        except Exception as ex:  # noqa
+            print("raised:", type(ex).__name__, str(ex)[:300])
+        print("expected:", r.get("expected"), "| recorded:", r.get("collect_returned"))
         return 0
     if "value" in r:
         print("value:", r["value"], "| first-row value:", r.get("first_row_value"), "| container/form:", r.get("kind"), r.get("form"))
